@@ -4,6 +4,7 @@ import PfVerif.Driver.C20
 import PfVerif.Driver.BS
 import PfVerif.Driver.Hedge
 import PfVerif.Driver.Risk
+import PfVerif.Driver.DType
 namespace PfVerif.Driver
 open Lean
 
@@ -33,6 +34,7 @@ def dispatch (op : String) (j : Json) : R Json :=
   | "qcvar" => opQcvar j
   | "oce" => opOce j
   | "cash_default" => opCashDefault j
+  | "dt_seq" => opDtSeq j
   | _ => .error s!"unknown op {op}"
 
 end PfVerif.Driver
